@@ -13,7 +13,7 @@ import (
 func init() {
 	mon.Register(&mon.Prop{
 		ID: "C12", Level: "exploration",
-		Rule: "complete enumeration of all strings over alphabets of size 2/3/4 up to the stated lengths (every rotation of every string is itself in the enumeration) plus structured long strings (powers, powers with one letter changed, Fibonacci and Thue-Morse words, runs, random) with a random rotation of each; non-trivial = length >= 2 and not all letters equal; distinct by hash of the string",
+		Rule:        "complete enumeration of all strings over alphabets of size 2/3/4 up to the stated lengths (every rotation of every string is itself in the enumeration) plus structured long strings (powers, powers with one letter changed, Fibonacci and Thue-Morse words, runs, random) with a random rotation of each; non-trivial = length >= 2 and not all letters equal; distinct by hash of the string",
 		Assumptions: []string{"oracle: brute force over all rotations for n<=64, independent two-pointer minimal-rotation scan above; both cross-checked on every short string"},
 		Shards:      tierShards(8, 16), WatchdogSec: tierSecs(600, 3600),
 		Run: runC12,
